@@ -59,8 +59,9 @@ func blank(e, uri string, id int) event {
 
 type trace struct {
 	Ev     []event `json:"ev"`
-	script []op
-	note   string
+	script  []op
+	note    string
+	skipped bool
 }
 
 type storedTrace struct {
@@ -327,10 +328,26 @@ func recordSessions(c *lib.Ctx, emptyDir string) ([]trace, error) {
 		{Op: "completion", URI: "u1", Sym: []string{}, L: 1, C: 3, Drain: true},
 		{Op: "hover", URI: "u3", Sym: []string{}, L: 0, C: 0},
 	})
+	// directed: bursts of changes of one document without waiting (publications race in the server)
+	for i := c.Pick(30, 150); i > 0; i-- {
+		burst := []op{{Op: "open", URI: "u1", Sym: []string{}, Text: ""}}
+		for k := 1; k <= 12; k++ {
+			sym := make([]string, k)
+			for j := range sym {
+				sym[j] = "a"
+			}
+			burst = append(burst, op{Op: "change", URI: "u1", Sym: sym, Text: strings.Repeat("x", k-1) + ")"})
+		}
+		scripts = append(scripts, burst)
+	}
 	traces := make([]trace, len(scripts))
 	var mu sync.Mutex
 	var firstErr error
 	lib.Parallel(len(scripts), 6, func(i int) {
+		if c.Violations() > 20 { // the verdict is settled; do not spend minutes on more sessions
+			traces[i] = trace{script: scripts[i], skipped: true}
+			return
+		}
 		tr, err := runScript(c, emptyDir, scripts[i])
 		mu.Lock()
 		defer mu.Unlock()
@@ -343,9 +360,14 @@ func recordSessions(c *lib.Ctx, emptyDir string) ([]trace, error) {
 		return nil, firstErr
 	}
 	nev := 0
+	var kept []trace
 	for _, t := range traces {
-		nev += len(t.Ev)
+		if !t.skipped {
+			kept = append(kept, t)
+			nev += len(t.Ev)
+		}
 	}
+	traces = kept
 	c.Set("V_sessions", len(traces))
 	c.Set("V_events", nev)
 	c.Logf("V: %d sessions, %d events recorded", len(traces), nev)
@@ -454,7 +476,11 @@ func judgeTraces(c *lib.Ctx, dir string, traces []trace) error {
 				evText = tail(string(b), 400)
 			}
 			key := v.why
-			if !strings.HasPrefix(key, "crlf-linestart:") {
+			switch {
+			case strings.HasPrefix(key, "crlf-linestart:"):
+			case key == "stale-final-publication":
+				key = "publish-stale-final"
+			default:
 				key = "session:" + v.why
 			}
 			c.Reject(key, fmt.Sprintf("recorded session is not a behaviour of LspServer: at event %d of %d: %s: %s %s", v.at+1, len(tr.Ev), v.why, evText, tr.note),
